@@ -267,7 +267,8 @@ class EulerSolver(AdaptiveSolverBase):
                     else:
                         # everything worked => do the step
                         steps += 1
-                        t += dt_step
+                        # land exactly on t_end if the step was shortened to reach it
+                        t = t_end if dt_step >= t_end - t else t + dt_step
                         state_cur, self.info["post_step_data"] = post_step_hook(
                             step_small, t, self.info["post_step_data"]
                         )
